@@ -10,11 +10,11 @@ CHECKS = {
    "the layout itself is a pure function: what the simulation adds is the faulting sink/source seam and the live-endpoint taps; the field-value sweep is seeded input generation riding on the same oracle and is not counted as schedule exploration. WebSocket endpoints frame through into_wire_bytes, covered by the route sweep and by the one-whole-frame-per-message oracles of C05/C15-C17.",
    "deterministic simulation: fault-injecting Read/Write/AsyncRead/AsyncWrite seams + wire taps vs. independent layout oracle"),
  "C02": ("fault_enumeration","3/C02",
-   "Hostile byte strings (random up to 4 KiB, structured mutations of valid frames, the three 64-bit length fields over boundary classes including wrapping and saturating sums) are fed to Header::decode, Message/MessageView::from_slice(_exact), read_message, read_message_into and the async twins through a reader seam that chunks, injects EINTR / spurious Pending and truncates at a seeded byte position; a hostile peer on the simulated network sends the same bytes to the real blocking Server and the real AsyncServer (then a healthy connection must still be served) and, as a server, to the real blocking Client and the real AsyncClient with calls in flight. Oracle: the independent codec's verdict in 128-bit arithmetic (acceptance, returned payload bytes, bytes consumed), catch_unwind for panics, and worker-process death attributed to the journalled case for aborts.",
+   "Hostile byte strings (random up to 4 KiB, structured mutations of valid frames, the three 64-bit length fields over boundary classes including wrapping and saturating sums) are fed to Header::decode, Message/MessageView::from_slice(_exact), read_message, read_message_into and the async twins through a reader seam that chunks, injects EINTR / spurious Pending and truncates at a seeded byte position; a hostile peer on the simulated network sends the same bytes to the real blocking Server, the real AsyncServer and (inside WebSocket binary messages) the real WebSocketServer (then a healthy connection must still be served) and, as a server, to the real blocking Client, AsyncClient and WebSocketClient with calls in flight. Oracle: the independent codec's verdict in 128-bit arithmetic (acceptance, returned payload bytes, bytes consumed), catch_unwind for panics, and worker-process death attributed to the journalled case for aborts.",
    "declared sizes for stream readers are <= 16 MiB or >= 2^62 for the frame and for each payload (never in between), workers run under RLIMIT_AS so an impossible allocation fails the same way everywhere; panics that the tokio runtime catches inside spawned tasks are journalled by the panic hook and reported.",
    "deterministic simulation: hostile-peer + faulting-reader fault injection, independent-codec oracle, abort detection by process journal"),
  "C03": ("exploration","3/C03",
-   "Pipelined request sequences (1-64 requests: valid/invalid version, every query-format code, non-UTF-8 queries, registered/unregistered/mounted paths, every built-in handler kind incl. the _blocking and middleware-wrapped ones, every body-format code with well-formed, malformed and empty bodies, notify 0/1) are sent by a raw scripted client over the simulated network (seeded chunking, delays, short I/O, thread schedules) to the real blocking Server, the real AsyncServer and the real WebSocketServer (inline routes on the reader task, _blocking routes off-reader on simulated threads; paused-clock tokio runtime) and compared with a routing/dispatch reference model: exactly one response per non-notify request in arrival order, none per notify, error code, echoed (or handler-chosen) query, body for deterministic handlers, user closure and middleware invocation counts; WebSocket inline responses in arrival order, off-reader ones as a multiset; the WebSocketServer's responses are additionally compared field by field with the AsyncServer's on the same sequence.",
+   "Pipelined request sequences (1-64 requests: valid/invalid version, every query-format code, non-UTF-8 queries, registered/unregistered/mounted paths, every built-in handler kind incl. the _blocking and middleware-wrapped ones, every body-format code with well-formed, malformed and empty bodies, notify 0/1) are sent by a raw scripted client over the simulated network (seeded chunking, delays, short I/O, thread schedules) to the real blocking Server, the real AsyncServer and the real WebSocketServer (inline routes on the reader task, _blocking routes off-reader on simulated threads; paused-clock tokio runtime) and compared with a routing/dispatch reference model: exactly one response per non-notify request in arrival order, none per notify, error code, echoed (or handler-chosen) query, body for deterministic handlers, user closure and middleware invocation counts; WebSocket inline responses in arrival order, off-reader ones as a multiset, also with finite off-reader caps, a slow consumer, and gated off-reader handlers released while the bounded outbound queue is full (every request still gets exactly one response); the WebSocketServer's responses are additionally compared field by field with the AsyncServer's on the same sequence.",
    "handlers used for comparison are deterministic; notify flags are 0 or 1; registry/struct mounts are modelled only as far as C03 states (response, id, query, error class).",
    "deterministic simulation: seeded pipelined histories vs. routing reference model"),
  "C04": ("exploration","3/C04",
